@@ -283,14 +283,23 @@ def _lane_write_fault(case):
         n = len(fmt[target] or b"")
         pos = [0, 1, n // 2, max(0, n - 1)][(case["sub"] // 7) % 4]
         plan = ["* write 1 %s torn %d 28" % (os.path.normpath(target), pos)] if case["sub"] % 3 else ["* write 1 %s errno %d" % (os.path.normpath(target), [28, 5, 122][case["sub"] % 3])]
+        backup = (case["sub"] // 28) % 3 == 0
+        if backup:
+            # the same with --backup: the result goes to a temporary sibling first; creating or writing that sibling
+            # fails (nothing has happened to the source at that point; failures of the two renames belong to C20)
+            argv = ["--backup"] + argv
+            tmp = os.path.normpath(os.path.splitext(target)[0] + ".tmp") if "." in os.path.basename(target) else os.path.normpath(target + ".tmp")
+            k = (case["sub"] // 84) % 4
+            plan = [["* openw 1 %s errno 13" % tmp], ["* openw 1 %s errno 28" % tmp], ["* write 1 %s errno 28" % tmp],
+                    ["* write 1 %s torn %d 28" % (tmp, pos)]][k]
         sc.fresh_world(world)
         res = core.run_inv(sc, {"argv": argv, "cwd": case["cwd"], "hashseed": case["hashseed"], "plan": plan})
-        v.planned("write-fault")
+        v.planned("write-fault" + ("|backup" if backup else ""))
         if not any(e.fault for e in res.events):
             v.account(res, nontrivial=False)
             v.probe("fault-not-reached")
             return v
-        v.fired("write-fault")
+        v.fired("write-fault" + ("|backup" if backup else ""))
         v.account(res)
         det = "plan=%s argv=%s status=%s stderr=%r" % (plan, argv, res.status(), core.text_of(res.stderr)[:160])
         ab = core.abnormal(res)
@@ -301,7 +310,7 @@ def _lane_write_fault(case):
         for f in orig:
             cur = core.read_rel(sc.root, f)
             if cur not in (orig[f], fmt[f]):
-                v.add("C05:incomplete-write|write-fault", "%s holds %s bytes: neither its original (%d) nor its complete formatted text (%d); %s" % (
+                v.add("C05:source-damaged-by-failed-backup-write" if backup else "C05:incomplete-write|write-fault", "%s holds %s bytes: neither its original (%d) nor its complete formatted text (%d); %s" % (
                     f, "no" if cur is None else len(cur), len(orig[f]), len(fmt[f] or b""), det), file=f)
                 break
         v.sample = {"kind": "write-fault", "plan": plan, "status": res.status()}
